@@ -61,6 +61,8 @@ pub fn gen_keys(path: &std::path::Path) -> Result<(), String> {
 	add("rsa2048-a", ossl::rsa_pkcs8(2048))?;
 	add("rsa2048-b", ossl::rsa_pkcs8(2048))?;
 	add("rsa2048-c", ossl::rsa_pkcs8(2048))?;
+	// a key behind the RemoteKeyPair interface whose signer pauses for a data-dependent time
+	add("remote-ed25519", ossl::ed25519_pkcs8())?;
 	std::fs::write(path, lines.join("\n") + "\n").map_err(|e| e.to_string())
 }
 
@@ -78,7 +80,9 @@ pub fn load_keys(path: &std::path::Path) -> Result<Vec<TKey>, String> {
 		#[cfg(feature = "crypto")]
 		let (kp, det) = {
 			// auto-detection for most keys; the general explicit loader for the RSA keys used under SHA-384/512
-			let kp = if f[1] == "PKCS_RSA_SHA384" || f[1] == "PKCS_RSA_SHA512" {
+			let kp = if f[0].starts_with("remote-") {
+				jitter_remote(&pkcs8, &pk_raw, alg)?
+			} else if f[1] == "PKCS_RSA_SHA384" || f[1] == "PKCS_RSA_SHA512" {
 				let pkd = pki_types::PrivateKeyDer::try_from(pkcs8.clone()).map_err(|e| e.to_string())?;
 				KeyPair::from_der_and_sign_algo(&pkd, alg).map_err(|e| format!("{}: {}", f[0], e))?
 			} else {
@@ -112,6 +116,49 @@ pub fn load_keys(path: &std::path::Path) -> Result<Vec<TKey>, String> {
 		return Err("empty key file".into());
 	}
 	Ok(out)
+}
+
+/// Ed25519 signer behind `RemoteKeyPair` that pauses for a message-dependent time before and after
+/// signing: calls sharing a key, an issuer or anything global overlap in many more ways than
+/// with the (fast, uniform) local signers.
+#[cfg(all(feature = "crypto", feature = "ossl"))]
+struct JitterRemote {
+	pkey: openssl::pkey::PKey<openssl::pkey::Private>,
+	pk: Vec<u8>,
+	alg: &'static SignatureAlgorithm,
+}
+
+#[cfg(all(feature = "crypto", feature = "ossl"))]
+impl rcgen::RemoteKeyPair for JitterRemote {
+	fn public_key(&self) -> &[u8] {
+		&self.pk
+	}
+	fn sign(&self, msg: &[u8]) -> Result<Vec<u8>, rcgen::Error> {
+		let h = fnv64(msg);
+		std::thread::sleep(std::time::Duration::from_micros(h % 150));
+		let r = openssl::sign::Signer::new_without_digest(&self.pkey)
+			.and_then(|mut s| s.sign_oneshot_to_vec(msg))
+			.map_err(|_| rcgen::Error::RemoteKeyError);
+		if h & 0x100 != 0 {
+			std::thread::yield_now();
+		}
+		std::thread::sleep(std::time::Duration::from_micros((h >> 16) % 100));
+		r
+	}
+	fn algorithm(&self) -> &'static SignatureAlgorithm {
+		self.alg
+	}
+}
+
+#[cfg(all(feature = "crypto", feature = "ossl"))]
+fn jitter_remote(pkcs8: &[u8], pk_raw: &[u8], alg: &'static SignatureAlgorithm) -> Result<KeyPair, String> {
+	let pkey = crate::ossl::load_private(pkcs8)?;
+	KeyPair::from_remote(Box::new(JitterRemote { pkey, pk: pk_raw.to_vec(), alg })).map_err(|e| e.to_string())
+}
+
+#[cfg(all(feature = "crypto", not(feature = "ossl")))]
+fn jitter_remote(pkcs8: &[u8], _pk_raw: &[u8], _alg: &'static SignatureAlgorithm) -> Result<KeyPair, String> {
+	KeyPair::try_from(pkcs8).map_err(|e| e.to_string())
 }
 
 /// keys for configurations that run without a key file (Miri)
@@ -388,7 +435,7 @@ fn shared_fingerprint(keys: &[TKey], iss: &Issuers) -> u64 {
 		h ^= fnv64(k.kp.public_key_raw()).rotate_left(13);
 		h ^= fnv64(format!("{:?}", k.kp.algorithm()).as_bytes());
 		#[cfg(feature = "crypto")]
-		{
+		if k.kp.as_remote().is_none() {
 			h ^= fnv64(&k.kp.serialize_der()).rotate_left(29);
 		}
 	}
